@@ -1229,19 +1229,13 @@ fn final_rules(w: &World, sc: &Sc7, pre_match: &BTreeMap<(usize, usize), usize>,
       }
     }
   }
-  // "the sample was there before reader b existed", decided on evidence only:
-  //  - b's participant hosts another reader of that writer (they share one TopicCache, and what is in flight to the
-  //    sibling lands there): the sibling had taken it before b's creation began;
-  //  - otherwise (only a transmission to b itself can bring it): some reader anywhere had taken it before b's
-  //    creation began, or write() had returned more than 5 s before (write() only queues the sample for the event loop)
-  let earlier = |a: usize, idx: usize, b: usize, tc: Instant| -> bool {
-    let sibling = (0..sc.eps.len()).any(|o| o != b && !sc.eps[o].is_writer && sc.eps[o].part == sc.eps[b].part && compatible(&sc.eps[a], &sc.eps[o]) && w.eps[o].create_started.is_some());
-    if sibling {
-      first_seen_on.get(&(sc.eps[b].part, a, idx)).map_or(false, |t| *t < tc)
-    } else {
-      first_seen.get(&(a, idx)).map_or(false, |t| *t < tc) || w.sent[a][idx].t_end + StdDuration::from_secs(5) < tc
-    }
-  };
+  // "the sample was there before reader b existed", decided on evidence only: some reader (anywhere) had taken it
+  // before b's creation began, or write() had returned more than 5 s before that (write() only queues the sample
+  // for the event loop). Since 466b74e each local Reader has its own delivery frontier, so what is in flight or
+  // re-sent to a sibling reader on b's participant can no longer reach b; the exception the rule had for that
+  // case is gone.
+  let earlier = |a: usize, idx: usize, _b: usize, tc: Instant| -> bool { first_seen.get(&(a, idx)).map_or(false, |t| *t < tc) || w.sent[a][idx].t_end + StdDuration::from_secs(5) < tc };
+  let _ = &first_seen_on;
   for (b, e) in w.eps.iter().enumerate() {
     if sc.eps[b].is_writer {
       continue;
